@@ -72,13 +72,15 @@ def capturing_parser():
         from metasequoia_sql.common import TokenScanner
         from metasequoia_sql.lexical import FSMMachine
 
+        import threading
+
         class P(SQLParser):
-            last = None
+            tl = threading.local()      # per thread: the harness itself must not introduce shared state (C12 runs requests from threads)
 
             @classmethod
             def _build_token_scanner(cls, string):
                 sc = TokenScanner(FSMMachine.parse(string))
-                P.last = sc
+                P.tl.last = sc
                 return sc
         _PARSER = P
     return _PARSER
@@ -91,14 +93,14 @@ _WITH_ARG = {"insert_statement": "positional", "update_statement": "positional",
 def parse_impl(entry, dialect, text):
     from metasequoia_sql import SQLType
     P = capturing_parser()
-    P.last = None
+    P.tl.last = None
     st = SQLType[dialect]
     fn = getattr(P, "parse_" + entry)
     if _WITH_ARG.get(entry) == "positional":
         res = fn(text, None, st)
     else:
         res = fn(text, sql_type=st)
-    sc = P.last
+    sc = P.tl.last
     rest = max(0, len(sc.elements) - sc.pos)
     return res, rest
 
